@@ -444,6 +444,32 @@ func c28Cases() []chainCase {
 				}})
 		}
 	}
+	// a staked application edits its stake: the chain limit holds for the edited record too
+	for _, x := range []struct {
+		name   string
+		chains string
+		n      int
+		value  string
+	}{{"max-chains", "0001+0002", 2, "2000000"}, {"too-many-chains", "0001+0002+0003", 3, "2000000"}, {"too-many-chains-and-more-stake", "0001+0002+0003", 3, "2500000"}} {
+		x := x
+		t := tx("app_stake", "P1", "value", x.value, "chains", x.chains)
+		cases = append(cases, chainCase{Name: "edit/" + x.name, Class: "edit", Env: env, Want: []string{"balances", "apppool"},
+			Ref: []BlockSpec{{}}, Subject: []BlockSpec{blk(t)},
+			Oracle: func(r, s JobResult) (string, string) {
+				before, after := obsRecords(r, "apps")["P1"], obsRecords(s, "apps")["P1"]
+				desc := fmt.Sprintf("staked application P1 edits its stake to %s on %d chains (maximum %d): result code %d, record before %v, after %v", x.value, x.n, 2, lastTx(s).Code, before, after)
+				if x.n > 2 {
+					if lastTx(s).Code == 0 || fmt.Sprint(before) != fmt.Sprint(after) {
+						return "edit-over-chain-limit", desc
+					}
+					return "", ""
+				}
+				if lastTx(s).Code != 0 || after["chains"] != x.chains {
+					return "edit-within-limits-refused", desc
+				}
+				return "", ""
+			}})
+	}
 	// transfers
 	type tr struct {
 		name   string
